@@ -45,6 +45,7 @@ type c09rx struct {
 	stateful         bool
 	pool             *rxPool
 	hadFail          bool
+	zeroAlloc        bool // SetZeroAllocation(true) on every instance of this run (an option setting like AVC or DONL)
 	pendingS         bool // a fragment train was left open by the last packet
 	vp9NoPDiffBefore bool
 	fp               []uint64
@@ -65,9 +66,13 @@ func runC09(c *core.Ctx) {
 	mtu := opts.minMTU() + []int{8, 2, 30, 1188, 100}[t.Intn(5)] + t.Intn(8)
 	cfg := drawWireCfg(t, c.Config)
 	loop := core.NewLoop(c, 5000)
-	rx := &c09rx{kind: kind, primary: newDepack(kind), stateful: isStatefulKind(kind), pool: newRxPool(c, 1+t.Intn(3))}
+	zeroAlloc := t.Chance(1, 5)
+	rx := &c09rx{kind: kind, zeroAlloc: zeroAlloc, primary: newDepackOpt(kind, zeroAlloc), stateful: isStatefulKind(kind), pool: newRxPool(c, 1+t.Intn(3))}
 	if rx.stateful {
-		rx.shadow = newDepack(kind)
+		rx.shadow = newDepackOpt(kind, zeroAlloc)
+	}
+	if zeroAlloc {
+		c.Probe("zero-allocation-mode")
 	}
 	if a, ok := rx.primary.(*av1PktAdapter); ok && t.Bool() {
 		a.reuse = true
@@ -128,7 +133,7 @@ func c09deliver(c *core.Ctx, rx *c09rx, d datagram, loop *core.Loop) {
 		c.Guard("codecs."+name+".IsPartitionHead", func() { h1 = rx.primary.IsPartitionHead(buf) })
 		c.Guard("codecs."+name+".IsPartitionTail", func() { t1 = rx.primary.IsPartitionTail(d.marker, buf) })
 		if !rx.stateful && rx.kind != kAV1Pkt {
-			fresh := newDepack(rx.kind)
+			fresh := newDepackOpt(rx.kind, rx.zeroAlloc)
 			c.Guard("codecs."+name+".IsPartitionHead", func() { h2 = fresh.IsPartitionHead(private) })
 			c.Guard("codecs."+name+".IsPartitionTail", func() { t2 = fresh.IsPartitionTail(d.marker, private) })
 			if h1 != h2 || t1 != t2 {
@@ -196,7 +201,7 @@ func c09deliver(c *core.Ctx, rx *c09rx, d datagram, loop *core.Loop) {
 			}
 		}
 	} else if rx.kind != kAV1Pkt {
-		fresh := newDepack(rx.kind)
+		fresh := newDepackOpt(rx.kind, rx.zeroAlloc)
 		if c.Guard("codecs."+name+".Unmarshal(fresh)", func() { out2, err2 = fresh.Unmarshal(private) }) {
 			return
 		}
@@ -235,8 +240,8 @@ func c09deliver(c *core.Ctx, rx *c09rx, d datagram, loop *core.Loop) {
 // histories, reported separately from the seeded runs.
 func prepassC09(c *core.Ctx) int {
 	cases := 0
-	for _, kind := range c09Kinds {
-		d := newDepack(kind)
+	for ki, kind := range append(append([]int{}, c09Kinds...), kH264, kH265, kVP8, kVP9, kAV1Dep) {
+		d := newDepackOpt(kind, ki >= len(c09Kinds)) // the second pass over the video kinds runs in zero-allocation mode
 		name := typeName(d)
 		feed := func(b []byte) {
 			cases++
